@@ -149,15 +149,27 @@ def drive(prop, tier, seed, only, scratch, t_start):
     fixed_known = [k for k in known if k.get('status') == 'fixed']
 
     # ---- 0. concrete self-tests of the harness (translator validation) ----
+    # A failing self-test is a concrete run of a condition on the real code: it is handled like any other
+    # counterexample (replayed by a generated script; reproduced => violation). On the unchanged tree all of them pass.
+    selftest_violations = []
     for modname, fn, args in selftests:
         r = run_worker(dict(module=modname, fn=fn, args=args, mode='concrete', scratch=scratch), scratch, 300)
         if r['verdict'] != 'PASS':
-            print('HARNESS-ERROR property=%s selftest %s.%s%r: %s' % (prop, modname, fn, args, r.get('message')))
-            return 2
+            cond = dict(name='%s.selftest.%s' % (prop, fn), module=modname, fn=fn)
+            rel = write_replay(prop, cond, args)
+            rr = subprocess.run([PY, os.path.join(VERIF, rel)], stdout=subprocess.PIPE, stderr=subprocess.STDOUT,
+                                env=dict(os.environ, VERIF_REPO=REPO))
+            if rr.returncode == 1:
+                print('VIOLATION property=%s replay=%s' % (prop, rel))
+                print('  concrete self-test input of %s.%s fails: %s' % (modname, fn, str(r.get('message'))[:300]))
+                selftest_violations.append(dict(cond=cond['name'], args=args, replay=rel))
+            else:
+                print('HARNESS-ERROR property=%s selftest %s.%s%r: %s' % (prop, modname, fn, args, r.get('message')))
+                return 2
 
     # ---- 1. known findings: witnesses ----
     known_seen = []
-    violations = []
+    violations = list(selftest_violations)
     for k in open_known:
         w = k['witness']
         r = run_worker(dict(module=w['module'], fn=w['fn'], args=w['args'], mode='concrete', scratch=scratch), scratch, 300)
